@@ -148,7 +148,9 @@ META = {
     "C17": _m(
         "M", "exploration", (600, 12000), (420, 5400),
         "Each run = one hierarchical model program (world-M generator with distributions on most vars, plus 1-3 'tight links': "
-        "child ~ Normal(g(parent), 1e-3) with g through cached / transient Calc nodes and weak vars, possibly chained), a few "
+        "child ~ Normal(g(parent), 1e-3) with g through cached / transient Calc nodes, weak vars, InputGroups fed by the parent's Var or by its "
+        "value node, possibly chained; a quarter of the children are LogNormal variables transformed with the default bijector, whose new "
+        "distribution node receives loc through builder-made InputGroups), a few "
         "assignments before the call, a skip set naming vars / dist nodes / value proxies, a seed and an auto-update setting. "
         "The model is simulated three times from identical starts: with the planned auto-update setting, with the opposite one, "
         "and again with the planned one. Non-trivial = at least one variable drawn; distinct = distinct (program shape, skip set, setting).",
@@ -169,7 +171,8 @@ META = {
         "built with copy on/off, followed by a history of 4-14 ops: assignments, auto-update toggles, updates, set_seed, round trips "
         "(pop + rebuild, copy_nodes_and_vars + rebuild, deepcopy, save/load through BytesIO and through a scratch file), F6 "
         "mutate-attempts (every guarded mutator of Node, Calc, Dist, Var incl. transform) and invalid constructions (duplicate node / "
-        "var / group names, reserved name, cycles via set_inputs and via Dist.at). Non-trivial = at least one round trip or mutate "
+        "var / group names - hand-written and generated: the run's own program plus a free or var-owned node re-using one of its node "
+        "names -, reserved name, cycles via set_inputs and via Dist.at). Non-trivial = at least one round trip or mutate "
         "attempt; distinct = distinct (program shape, op-kind sequence).",
         "build / pop / copy / save / load / mutate-attempt / assignment operations",
         "distinct (program shape incl. unnamed/seeded flags, op-kind sequence) tuples",
@@ -186,7 +189,8 @@ META = {
     "C02": _m(
         "M", "exploration", (800, 40000), (420, 5400),
         "Each run = one generated model program (world-M generator with distributions on most vars over 9 families, observed / "
-        "parameter / unflagged vars, bare Dist nodes, weak intermediates, transformed vars through every entry point, per_obs on/off, "
+        "parameter / unflagged vars, bare Dist nodes, weak intermediates (with their own distributions and observed / parameter flags), "
+        "transformed vars through every entry point, per_obs on/off, "
         "optionally user-supplied log_lik / log_prior / log_prob nodes) and a value history of 4-25 ops (assignments incl. to "
         "transformed vars, partial updates, restores); whenever the model is fully up to date the three totals and every Var.log_prob "
         "are compared with float64 closed forms; a twin with all per_obs flags flipped must give the same totals. Non-trivial = at "
@@ -304,7 +308,9 @@ META = {
         "Each run = 12 direct da_init / da_step / da_finalize call histories (acceptance sequences of 3-40 values from uniform / low / "
         "high / constant / extreme families, initial step sizes 1e-3..10, targets, gamma, kappa, t0, 0-2 epoch restarts, eager or jitted, with a "
         "higher-acceptance twin from the same state at every step); every second run additionally one Engine run of RW / MH (tuning on or "
-        "off) / IWLS / HMC / NUTS with store_kernel_states over a schedule of 2-5 epochs mixing fast / slow / burn-in / posterior, 1-3 chains. "
+        "off) / IWLS / HMC / NUTS with store_kernel_states over a schedule of 2-5 epochs mixing fast / slow / burn-in / posterior, 1-3 chains; "
+        "for the Metropolis-Hastings kernels half of the targets are undefined (NaN, fault F2) beyond a radius, so that some adaptation steps "
+        "are fed the acceptance probability 0 reported with error code 90. "
         "Non-trivial = at least one dual-averaging step checked; distinct = distinct run signature.",
         "dual-averaging steps (direct) + kernel transitions (engine)",
         "distinct (direct histories, kernel, schedule, constants) signatures",
@@ -324,7 +330,9 @@ META = {
         "mu = X beta and sigma, a cached Calc d = tanh(z) beta_0, the stored log-probability), as a Liesel graph model (2 of 3 runs) or a dict "
         "model, kernel order shuffled, optionally an order-sensitive deterministic Gibbs pair (x <- y + 1, y <- 2x) interleaved, z with a "
         "Uniform prior (zero-density region: F2) or a Normal prior, 1-3 chains, 20 iterations over a warm-up and a posterior epoch; an "
-        "ObserverKernel sits before, between and after the kernels. Non-trivial = at least one observed state checked; distinct = distinct "
+        "ObserverKernel sits before, between and after the kernels. After the engine run every MH-type / gradient kernel is driven by hand: "
+        "own transition, other blocks moved, next transition with the carried-over and with a freshly initialised kernel state. "
+        "Non-trivial = at least one observed state checked; distinct = distinct "
         "configuration.",
         "kernel transitions x chains",
         "distinct (model kind, kernel order, kernel types, scale parametrisation, prior of z, Gibbs pair, pair order) tuples",
